@@ -980,7 +980,8 @@ class ConeBeamGeometry(DivergentBeamGeometry, AxisOrientedGeometry):
 
         # The tangent direction of the source and detector circles is
         # undefined if source and detector lie on the rotation axis
-        if np.linalg.norm(np.cross(src_to_det_init, axis)) == 0:
+        if (np.linalg.norm(np.cross(src_to_det_init, axis))
+                <= 1e-10 * np.linalg.norm(axis)):
             raise ValueError('`src_to_det_init` {} cannot be parallel to '
                              '`axis` {}'.format(src_to_det_init, axis))
 
